@@ -154,6 +154,18 @@ func (x *Exec) endSign(f []string) (string, string) {
 			kinds = append(kinds, x.cur.Msgs[min(i, len(x.cur.Msgs)-1)].Kind)
 		}
 		ident := strings.Join(id, ";")
+		// the property speaks of messages that pass stateless validation: only those take part in the collision check
+		for _, msg := range x.cur.Top {
+			ok := false
+			func() {
+				defer func() { recover() }()
+				ok = msg.ValidateBasic() == nil
+			}()
+			if !ok {
+				x.Stats["sign-not-validated"]++
+				return
+			}
+		}
 		key := mode + "|" + chain + "|" + f[3] + "|" + f[4] + "|" + f[5] + "|" + f[6] + "|" + coinsTok(x.cur.Fee) + "|" + string(bz)
 		if x.signSeen == nil {
 			x.signSeen = map[string]signSeen{}
@@ -298,6 +310,42 @@ func genSignCases(r *RNG, thorough bool) []string {
 	one(joinSp("aol.AddWriter", toks("t"), toks(""), toks(""), toks(B), toks(A)))
 	one(joinSp("aol.AddRecord", toks("t"), toks(""), toks(""), toks(B), toks(A), toks("")))
 	one(joinSp("pnft.Burn", toks("d1"), toks("t1"), toks(A)))
+	// every message kind with each field emptied in turn, next to the kinds whose untyped JSON has the same remaining keys:
+	// on the unchanged code the emptied variants fail validation (and are left out of the collision check); a validator
+	// that lets one through turns it into a collision
+	type mk struct {
+		kind string
+		args []string
+	}
+	base := []mk{
+		{"aol.CreateTopic", []string{"t", "d", A}},
+		{"aol.AddWriter", []string{"t", "m", "d", B, A}},
+		{"aol.DeleteWriter", []string{"t", B, A}},
+		{"aol.AddRecord", []string{"t", "k", "v", B, A, ""}},
+		{"pnft.CreateDenom", []string{"X", "N", "S", "", "", "", A, ""}},
+		{"pnft.UpdateDenom", []string{"X", "N", "S", "", "", "", A, ""}},
+		{"pnft.DeleteDenom", []string{"X", A}},
+		{"pnft.TransferDenom", []string{"X", A, B}},
+		{"pnft.Mint", []string{"D", "X", "N", "", "", "", "", A}},
+		{"pnft.Transfer", []string{"D", "X", A, B}},
+		{"pnft.Burn", []string{"D", "X", A}},
+	}
+	for _, bm := range base {
+		for i := -1; i < len(bm.args); i++ {
+			a := append([]string{}, bm.args...)
+			if i >= 0 {
+				if a[i] == "" {
+					continue
+				}
+				a[i] = ""
+			}
+			parts := []string{bm.kind}
+			for _, v := range a {
+				parts = append(parts, toks(v))
+			}
+			one(joinSp(parts...))
+		}
+	}
 	// several messages, memo, fee and sequence variations
 	emit([]string{joinSp("aol.CreateTopic", toks("t"), toks("d"), toks(A)), joinSp("aol.DeleteWriter", toks("t"), toks(B), toks(A))}, "memo", toks(feeDenom)+":10", 3)
 	emit([]string{joinSp("aol.DeleteWriter", toks("t"), toks(B), toks(A)), joinSp("aol.CreateTopic", toks("t"), toks("d"), toks(A))}, "memo", toks(feeDenom)+":10", 3)
